@@ -14,8 +14,11 @@ build_backend() {
     ring) feats="--no-default-features --features ring" ;;
     aws) feats="--no-default-features --features aws" ;;
     nocrypto) feats="--no-default-features --features nocrypto" ;;
+    plain) feats="--no-default-features --features ring" ;;   # hooks OFF: production behaviour (std RandomState)
   esac
-  if ! (cd "$HARNESS" && CARGO_TARGET_DIR="$HARNESS/target/$b" cargo build --release --offline -p vcheck $feats) >"$LOGDIR/build-$b.log" 2>&1; then
+  flags="$RUSTFLAGS"
+  [ "$b" = plain ] && flags=""
+  if ! (cd "$HARNESS" && RUSTFLAGS="$flags" CARGO_TARGET_DIR="$HARNESS/target/$b" cargo build --release --offline -p vcheck $feats) >"$LOGDIR/build-$b.log" 2>&1; then
     echo "MACHINERY-ERROR: harness build ($b) failed; last lines of $LOGDIR/build-$b.log:" >&2
     tail -n 25 "$LOGDIR/build-$b.log" >&2
     return 2
